@@ -16,6 +16,7 @@ package cache
 
 //@ extern fmt.Sprintf(format, args)
 //@   pure
+//@   ensures len(args) == 2 ==> result == sprintf2(format, payload(args[0]), payload(args[1]))
 //@   ensures len(args) == 3 ==> result == sprintf3(format, payload(args[0]), payload(args[1]), payload(args[2]))
 //@   ensures len(args) == 4 ==> result == sprintf4(format, payload(args[0]), payload(args[1]), payload(args[2]), payload(args[3]))
 
@@ -236,6 +237,7 @@ package cache
 //@   pure
 //@   ensures len(elem) == 2 ==> result == pjoin2(elem[0], elem[1])
 //@   ensures len(elem) == 3 ==> result == pjoin3(elem[0], elem[1], elem[2])
+//@   ensures len(elem) == 4 ==> result == pjoin4(elem[0], elem[1], elem[2], elem[3])
 
 //@ extern path/filepath.Join(elem)
 //@   pure
